@@ -85,6 +85,12 @@ def one_session(args):
               'behaviour': case['beh'], 'wd': wd}
     if os.path.exists(os.path.join(wd, 'test_job.py')):
         case['stale_script_sha'] = gl.sha(os.path.join(wd, 'test_job.py'))
+    if tid % 5 == 4 and not case.get('prelim'):
+        try:
+            if gl.earlier_generation(case) == 0:
+                detail['earlier_generation_in_this_directory'] = 'test_Job.py (ref/Job/...)'
+        except Exception:
+            pass
     fs0, snap0 = abstract_fs(case, ids)
     beh0 = beh_abstract(case, case['beh'], ids)
     opts = {'stdout': not case['no_stdout'], 'stderr': not case['no_stderr'], 'nonzero': case['nonzero'], 'iterations': case['iterations']}
@@ -114,9 +120,19 @@ def one_session(args):
                 detail['compile_error'] = str(ex)[:300]
     # files outside the model's paths that were altered or removed (cmd.py, beh.json, nested files ...)
     known = set(case['names'].values()) | {'keepme.cfg', os.path.join('sub', 'nested.dat'), 'test_job.py'}
-    other_changed = [p for p in snap0 if p not in known and not p.startswith('ref' + os.sep) and snap1.get(p) != snap0[p]]
+    # (gentest's own reference directory for THIS script is its to rewrite; another script's is not)
+    other_changed = [p for p in snap0 if p not in known and not p.startswith(os.path.join('ref', 'job') + os.sep) and p != 'ref' and snap1.get(p) != snap0[p]]
     if other_changed:
         fs1['in1'] = 'clobbered:' + other_changed[0]
+    elif detail.get('earlier_generation_in_this_directory') and raised == 'none' and not refused:
+        # the test generated earlier in this directory is one of the files that were there: it must still pass
+        try:
+            res_e, out_e, rc_e = gl.run_script(case, script='test_Job.py')
+            if rc_e != 0 or not res_e or any(v_ != 'pass' for v_ in res_e.values()):
+                fs1['in1'] = 'clobbered: the test generated earlier (test_Job.py) no longer passes'
+                detail['earlier_test_output'] = out_e[-500:]
+        except Exception:
+            pass
     events.append({'tid': tid, 'ev': 'Generate', 'raised': raised, 'fs': fs1, 'compiles': compiles})
     if raised != 'none' or refused or not compiles:
         return events, detail
@@ -137,7 +153,10 @@ def one_session(args):
             detail.setdefault('script_output', outp[-2500:])
         events.append(e)
         return v
-    runtest('fresh')
+    # a history without a test run straight after generation: the command changes, is run once by hand, then the tests run
+    by_hand_history = nperturb > 0 and tid % 4 == 2
+    if not by_hand_history:
+        runtest('fresh')
     # perturbations: one change at a time, each followed by a run of the generated test
     targets = sorted(case['names']) + ([] if case['no_stdout'] else ['STDOUT']) + ([] if case['no_stderr'] else ['STDERR']) + ['exit']
     cwd_files = [k for k in sorted(case['names']) if not case['names'][k].startswith('$TMPDIR/') and not case['names'][k].startswith('~')]
@@ -226,6 +245,12 @@ def one_session(args):
         gl.set_behaviour(case, beh)
         events.append({'tid': tid, 'ev': 'Perturb', 'raised': 'none', 'target': t, 'what': what, 'beh': beh_abstract(case, beh, ids)})
         detail.setdefault('perturbations', []).append({'target': t, 'what': what})
+        if by_hand_history and step == 0:
+            try:
+                gl.run_command_by_hand(case)
+                detail['command_run_by_hand_before_the_first_test_run'] = True
+            except Exception:
+                pass
         runtest('perturbed', beh_abstract(case, beh, ids))
         # back to the original behaviour: the test passes again
         gl.set_behaviour(case, case['beh'])
